@@ -275,8 +275,10 @@ Definition lv_reg_phase (i : lv_in) (n : nat) : nat * res :=
 Definition registered_true (i : lv_in) : bool :=
   match l_registered i with Some (CTrue, _) => true | _ => false end.
 
-(* the launch-timeout part, followed by the registration part *)
-Definition lv_launch_phase (i : lv_in) : nat * res :=
+(* the launch-timeout part. Since 3cbc43e89 a successful Delete for the launch timeout ends the
+   reconcile; before, the code fell through to the registration part ([fall_through] = true), which
+   could record a second failure and issue a second Delete in the same reconcile. *)
+Definition lv_launch_phase_gen (fall_through : bool) (i : lv_in) : nat * res :=
   match l_launched i with
   | None => (O, RRequeue)
   | Some (ls, lt) =>
@@ -289,15 +291,21 @@ Definition lv_launch_phase (i : lv_in) : nat * res :=
              | HErr => (O, RErr)
              | HProceed =>
                  match nth_del i O with
-                 | AOk => lv_reg_phase i 1%nat
+                 | AOk => if fall_through then lv_reg_phase i 1%nat else (1%nat, ROk)
                  | ANotFound => (1%nat, ROk)
                  | _ => (1%nat, RErr)
                  end
              end
   end.
 
+Definition lv_launch_phase : lv_in -> nat * res := lv_launch_phase_gen false.
+
 Definition liveness (i : lv_in) : nat * res :=
   if registered_true i then (O, ROk) else lv_launch_phase i.
+
+(* the code before 3cbc43e89 *)
+Definition liveness_prefix (i : lv_in) : nat * res :=
+  if registered_true i then (O, ROk) else lv_launch_phase_gen true i.
 
 Definition launch_timed_out (i : lv_in) : bool :=
   match l_launched i with
